@@ -1642,12 +1642,17 @@ static void emit_text(Obj *prog) {
       // The unnamed arguments on the stack follow the named ones.
       int gp = 0, fp = 0, overflow = 16;
       for (Obj *var = fn->params; var; var = var->next) {
+        int ngp = 0, nfp = 0;
         if (var->offset > 0)
           overflow = MAX(overflow, align_to(var->offset + var->ty->size, 8));
+        else if (var->ty->kind == TY_STRUCT || var->ty->kind == TY_UNION)
+          count_struct_regs(var->ty, &ngp, &nfp);
         else if (is_flonum(var->ty))
-          fp++;
+          nfp = 1;
         else
-          gp++;
+          ngp = 1;
+        gp += ngp;
+        fp += nfp;
       }
 
       int off = fn->va_area->offset;
